@@ -210,3 +210,13 @@ def spec_rep_start(fe):
 def spec_closed(f):
     """the repetition's own frame with its list closed (the value of a closure is a closed list)"""
     return spec_with_cst(f, closedlist(f.cst))
+
+
+def uf_body_exp(body) -> 'func:PARSE':
+    """the parse function the block under `with ctx.loopopt() as cl:` (etc.) registers with `@cl.exp`"""
+    raise NotImplementedError
+
+
+def uf_body_sep(body) -> 'func:PARSE':
+    """the separator function the block registers with `@cl.sep`"""
+    raise NotImplementedError
